@@ -302,6 +302,13 @@ class ListTail:
         self.n = n
 
 
+class ListWindow:
+    """lst[lo:hi] for a python list with symbolic bounds that are not the tail idiom: an uninterpreted window."""
+
+    def __init__(self, lst, lo, hi, text):
+        self.lst, self.lo, self.hi, self.text = lst, lo, hi, text
+
+
 class PyFunc:
     """A callable supplied by the rule (models a user callback)."""
 
@@ -881,6 +888,14 @@ class Interp:
                 return self.prefix(base, n)
             if sl.lower is None and sl.upper is None and sl.step is None:
                 return base
+            if isinstance(base, list) and sl.step is None:
+                # a window of a python list with symbolic bounds: `lst[len(lst) - n:]` is the tail, anything else stays uninterpreted
+                lo_t, hi_t = (ast.unparse(x) if x is not None else None for x in (sl.lower, sl.upper))
+                base_t = ast.unparse(node.value)
+                if hi_t in (None, f"len({base_t})") and isinstance(sl.lower, ast.BinOp) and isinstance(sl.lower.op, ast.Sub) \
+                        and ast.unparse(sl.lower.left) == f"len({base_t})":
+                    return ListTail(base, self.eval(sl.lower.right, fr))
+                return ListWindow(base, lo_t, hi_t, ast.unparse(node))
             raise Unsupported(f"slice {ast.unparse(node)}")
         idx = self.eval(sl, fr)
         return self.index(base, idx, node)
@@ -1263,6 +1278,9 @@ class Interp:
 
     def x_numpy_mean(self, a, k):
         v = a[0]
+        if isinstance(v, ListWindow):
+            last = v.lst[-1] if v.lst else self.const(0)
+            return self.T.app(f"mean_window[{v.lo}:{v.hi}]", [self.as_term(last)], sign="nonneg")
         if isinstance(v, ListTail):
             last = v.lst[-1] if v.lst else self.const(0)
             return self.T.app("mean_tail", [self.as_term(v.n), self.as_term(last)], sign="nonneg")
